@@ -6,7 +6,8 @@
    interleavings of enqueuing goroutines, the roll-over goroutine and TTL
    timers, and all arrival sequences with priorities and TTLs. *)
 From Coq Require Import List ZArith Bool Lia Sorting.Sorted.
-From Verif Require Import C10.Model C10.Proofs C10.Proofs2 C10.Proofs3 C10.Plugin C10.PluginProofs.
+From Verif Require Import C10.Model C10.Proofs C10.Proofs2 C10.Proofs3 C10.Plugin C10.PluginProofs
+  C10.Split C10.SplitProofs.
 Import ListNotations.
 Open Scope Z_scope.
 
@@ -455,4 +456,102 @@ Example C10_plugin_ttl_outcomes :
   pmonotone 0 truncated_ttl = true /\
   (can TtlTruncated (1 + second), can TtlExact (1 + second),
    can TtlExact (1 + 12 * eighth - 1), can TtlExact (1 + 12 * eighth)) = (true, false, false, true).
+Proof. vm_compute. repeat split. Qed.
+
+(* ================================================================== *)
+(* The atomicity of the locked part of Enqueue (Split.v).              *)
+(*                                                                    *)
+(* Every theorem above is about schedules of Model.v, in which the     *)
+(* quota test, the queue-size test and heap.Push + requestCounts++ of  *)
+(* one Enqueue are ONE step (one dpq.mutex section).  Split.v is the   *)
+(* model in which the decision and the push are two sections with any  *)
+(* step in between (seeded change C10-6).  The harness suite [atomic]  *)
+(* checks on the real queue that nothing can be scheduled between the  *)
+(* two (an Enqueue or a roll-over pass started while a request stands  *)
+(* on the trace line logged between decision and push blocks on the    *)
+(* mutex until the push is done).                                      *)
+
+(* ---- the atomic model is the split model on lifted schedules ---- *)
+
+(* If every decision is immediately followed by its push, the split model
+   computes exactly the state of Model.v (and nothing stays pending): the
+   theorems above apply to the split model restricted to such schedules. *)
+Theorem C10_split_refines_atomic : forall c t0 acts,
+  srun c (sinit c t0) (lift acts) = {| base := run c (init c t0) acts; pend := [] |}.
+Proof. intros. apply lift_run. Qed.
+Print Assumptions C10_split_refines_atomic.
+
+(* What suite [atomic] evaluates: an observed schedule accepted by [unlift] is
+   a lifted one, and the split model on it is the model of Model.v on the
+   action list handed to [run_case]; every schedule of Model.v is accepted. *)
+Theorem C10_atomic_case_is_lifted : forall c t0 l cs acts cs',
+  unlift l cs = Some (acts, cs') ->
+  l = lift acts /\ srun c (sinit c t0) l = {| base := run c (init c t0) acts; pend := [] |}.
+Proof.
+  intros c t0 l cs acts cs' U. pose proof (unlift_lift l cs acts cs' U) as E.
+  split; [exact E|]. rewrite E. apply lift_run.
+Qed.
+Print Assumptions C10_atomic_case_is_lifted.
+
+Theorem C10_atomic_accepts_every_schedule : forall acts,
+  exists cs cs', unlift (lift acts) cs = Some (acts, cs').
+Proof. exact lift_unlift. Qed.
+Print Assumptions C10_atomic_accepts_every_schedule.
+
+(* the size bound, restated for the split model *)
+Definition C10_size_bound_for_split : Prop :=
+  forall c t0 sacts,
+    let s := srun c (sinit c t0) sacts in
+    qcount (reqs (base s)) <= Z.max 0 (qsize c).
+
+(* on lifted schedules it holds (it is C10_size_bound), nothing is pending, so
+   the requests blocked in Enqueue are bounded by the queue size as well *)
+Theorem C10_size_bound_split_on_lifted : forall c t0 acts,
+  let s := srun c (sinit c t0) (lift acts) in
+  qcount (reqs (base s)) <= Z.max 0 (qsize c) /\ swaiting s <= Z.max 0 (qsize c).
+Proof.
+  intros c t0 acts s. unfold s. rewrite C10_split_refines_atomic. unfold swaiting. cbn [base pend length].
+  destruct (C10_size_bound c t0 acts) as [B W]. cbv zeta in B, W. unfold waiters in W. split; [exact B|lia].
+Qed.
+Print Assumptions C10_size_bound_split_on_lifted.
+
+(* quota 1, queue size 1: request 1 takes the slot; requests 2 and 3 both
+   decide "there is room" before either has pushed, then both push. *)
+Definition cfg_q1 : cfg := {| quota := 1; wsize := 1000; qsize := 1 |}.
+Definition double_push : list saction :=
+  [SDecide 1 0 0 5000 0; SDecide 2 0 1 5000 1; SDecide 3 0 2 5000 2; SPush 2; SPush 3].
+
+(* C10_size_bound needs the atomic step: with decision and push in separate
+   critical sections two requests wait in a queue of size 1. *)
+Theorem C10_size_bound_split_refuted : ~ C10_size_bound_for_split.
+Proof.
+  intro H. specialize (H cfg_q1 0 double_push). revert H. vm_compute. intro H. apply H. reflexivity.
+Qed.
+Print Assumptions C10_size_bound_split_refuted.
+
+(* the same three arrivals, atomic (the code) against split: at HEAD request 3
+   is refused "queue full" at once and one request waits; split: nobody is
+   refused and two wait *)
+Example C10_double_push_outcomes :
+  sresults cfg_q1 0 (lift [EnqLocked 1 0 0 5000 0; EnqLocked 2 0 1 5000 1; EnqLocked 3 0 2 5000 2]) =
+    (1, 1, [(1, Some (true, 0)); (2, None); (3, Some (false, 2))]) /\
+  sresults cfg_q1 0 double_push = (2, 2, [(1, Some (true, 0)); (2, None); (3, None)]) /\
+  unlift double_push [None; None; None; None; None] = None.
+Proof. vm_compute. repeat split. Qed.
+
+(* a roll-over pass between decision and push: request 2 decides to queue at
+   999 (window [0,1000) used up), the pass of the boundary 1000 runs on an empty
+   heap, then request 2 pushes; it waits through the whole window [1000,2000)
+   although no slot of it is taken and nobody is ahead, and expires at 1900.
+   Atomic: the pass comes after the push and releases it (when it is parked). *)
+Definition pass_in_the_gap : list saction :=
+  [SDecide 1 0 0 900 0; SDecide 2 0 999 900 999; SA (Tick 1000); SPush 2; SA (Park 2 1000);
+   SA (Ttl 2 1900); SA (Return 2 1900)].
+
+Example C10_pass_in_the_gap_outcomes :
+  sresults cfg_q1 0 pass_in_the_gap = (0, 0, [(1, Some (true, 0)); (2, Some (false, 1900))]) /\
+  (count_win 2000 (log (base (srun cfg_q1 (sinit cfg_q1 0) pass_in_the_gap))) = 0) /\
+  (map result_of (reqs (run cfg_q1 (init cfg_q1 0)
+     [EnqLocked 1 0 0 900 0; EnqLocked 2 0 999 900 999; Park 2 999; Tick 1000; Return 2 1000]))) =
+    [(1, Some (true, 0)); (2, Some (true, 1000))].
 Proof. vm_compute. repeat split. Qed.
